@@ -328,7 +328,8 @@ namespace bxdecay0 {
       double ref_p = std::sqrt(ref_momentum.x * ref_momentum.x +
                                ref_momentum.y * ref_momentum.y +
                                ref_momentum.z * ref_momentum.z);
-      double ref_theta = std::acos(ref_momentum.z / ref_p);
+      // A target particle at rest has no direction: take the z axis as its direction
+      double ref_theta = (ref_p > 0.0) ? std::acos(ref_momentum.z / ref_p) : 0.0;
       double ref_phi   = std::atan2(ref_momentum.y, ref_momentum.x);
 
       // Randomize a new direction with respect to the cone axis.
